@@ -98,6 +98,16 @@ def programs(tier, seed):
     out += [("sameop:mixed", p) for p in gen_mixed(rng, 30 if tier == "quick" else 300)]
     for sr in SEMIRINGS[:4]:
         out += [("sameop:%s/%s" % sr[:2], p) for p in gen_sumproducts(rng, 15 if tier == "quick" else 150, sr[0], sr[1], sr[2], 4)]
+    # a unary op over a reduction it must NOT be pushed through: -(max_i (a + b)), -(min_i (a * b)), exp(max), ... (fixed programs:
+    # the random "mixed" family above contains this shape only by chance)
+    from lang.prog import binary, leaf, num, reduce_, subs, unary, var
+    na = leaf("na", (("a", 2), ("b", 3)), (), "nonneg")
+    nb = leaf("nb", (("a", 2), ("c", 2)), (), "nonneg")
+    for mm in ("max", "min", "add"):
+        for inner in ("add", "mul"):
+            for un in ("neg", "exp"):
+                out.append(("sameop:unary_of_reduce", unary(un, reduce_(mm, binary(inner, na, nb), (("a", 2),)))))
+                out.append(("sameop:unary_of_reduce", reduce_("add", unary(un, reduce_(mm, binary(inner, na, nb), (("a", 2),))), (("c", 2),))))
     # chained substitutions into terms that stay lazy (renaming onto an existing input, then binding it)
     from lang.prog import binary, leaf, num, subs, unary, var
     x = leaf("x", (("i", 2), ("j", 3), ("k", 2)))
